@@ -206,6 +206,9 @@ func validateUnionCases(env *Environment, errorSink *validation.ErrorSink) *Envi
 			self.VisitChildren(node, visitingReference)
 
 		case *SimpleType:
+			// Check the type arguments as they are written
+			self.VisitChildren(node, visitingReference)
+
 			if len(t.ResolvedDefinition.GetDefinitionMeta().TypeArguments) > 0 {
 				// Check the referenced type with the type arguments provided
 				self.Visit(t.ResolvedDefinition, true)
